@@ -36,6 +36,7 @@ def cases(draw):
     return {"model": model, "method": draw(st.sampled_from(METHODS)), "deep_algorithms": draw(st.integers(0, 4)) == 0,
             "edit": draw(st.sampled_from([None, None, "ub", "lb"])),
             "third": draw(st.sampled_from([None, "flip-same-object", "add-redundant-row"])),
+            "rejected_call": draw(st.sampled_from([None, None, "string", "none"])),
             # keywords that Problem.solve documents for every problem
             "kw": draw(st.sampled_from([None, None, None, {"maxiter": 1000}, {"tol": 1e-9}, {"x0": None, "use_hessian": True},
                                         {"maxiter": 500, "tol": 1e-8}]))}
@@ -77,6 +78,15 @@ def check(case):
             P, b, built = models.build_problem(model)
         except Exception as ex:
             return Result.violation(f"build-raises:{exc_label(ex)}", f"{desc}: {ex!r}", classes)
+        if case.get("rejected_call"):
+            # before anything is solved: the OTHER orientation's method is called with something that is not an expression and the
+            # error is caught; the model the user wrote is unchanged
+            try:
+                (P.maximize if model["sense"] == "minimize" else P.minimize)("not an expression" if case["rejected_call"] == "string" else None)
+                classes.append("rejected-call:accepted")
+                return Result.inconclusive("invalid-objective-accepted", classes)
+            except Exception:
+                classes.append("rejected-call:rejected")
         rounds = ["first", "second"] + (["third"] if case.get("third") else [])
         for rnd in rounds:
             if rnd == "third" and case["third"] == "flip-same-object":
